@@ -1185,6 +1185,18 @@ func (vc *VC) mapDelete(st *State, ref string, m *types.Map, key Val) {
 	}
 }
 
+// mapClear: the domain of the map becomes empty and its length 0 (values of absent keys are irrelevant).
+func (vc *VC) mapClear(st *State, ref string, m *types.Map) {
+	dn, ds := vc.mapHeaps(m)
+	dh := vc.heap(st, dn, ds)
+	lh := vc.heap(st, "Ml|"+canon(m), arraySort("Int", "Int"))
+	vc.setHeap(st, "Ml|"+canon(m), arraySort("Int", "Int"), sto(lh, ref, "0"))
+	vc.setHeap(st, dn, ds, sto(dh, ref, "((as const "+arraySort(mapKeySort(m), "Bool")+") false)"))
+	if vc.logStores {
+		vc.storeLog = append(vc.storeLog, storeRec{heap: dn, base: ref}, storeRec{heap: "Ml|" + canon(m), base: ref})
+	}
+}
+
 // ---- byte-slice helpers ----
 
 func (vc *VC) byteHeap(st *State) string {
